@@ -70,7 +70,13 @@ func (p *packetizer) Packetize(payload []byte, samples uint32) []*Packet {
 		return nil
 	}
 
-	payloads := p.Payloader.Payload(p.MTU-12, payload)
+	budget := p.MTU - 12
+	if p.extensionNumbers.AbsSendTime != 0 && budget >= 8 {
+		// the last packet carries the abs-send-time extension: a 4 byte extension header and a
+		// 4 byte one-byte-header element, whatever the extension id
+		budget -= 8
+	}
+	payloads := p.Payloader.Payload(budget, payload)
 	packets := make([]*Packet, len(payloads))
 
 	for i, pp := range payloads {
